@@ -52,7 +52,7 @@ def p_raw(tpl, delim, comment, optmode, follow=("FOLLOW_LIST",), timeout=600, ex
     n = len(tpl)
     lines = tpl.count("N") + (1 if (n and not tpl.endswith("N")) else 0)
     cap = max(6 + 1 + n + 2, 10)
-    d = {"PB": max(n, 1), "RAWTPL": '"%s"' % tpl, "DELIM": DELIMS[delim], "COMMENT": COMMENTS[comment], "OPTMODE": optmode,
+    d = {"PB": max(n, 1), "PLINES": max(lines, 1), "RAWTPL": '"%s"' % tpl, "DELIM": DELIMS[delim], "COMMENT": COMMENTS[comment], "OPTMODE": optmode,
          "STRCAP": cap, "VCAP": max(lines + 2, 10 if "FOLLOW_MERGE" in follow else 3), "VFS_CONTENT": max(n, 1) + (16 if "FOLLOW_WRITE" in follow else 0), "VFS_MAXNODES": 4, "FMTCAP": 24}
     for f in follow: d[f] = None
     if exact: d["ALLOC_EXACT"] = None
@@ -68,14 +68,14 @@ def p_raw(tpl, delim, comment, optmode, follow=("FOLLOW_LIST",), timeout=600, ex
 def c04(tier):
     insts = []
     if tier == "quick":
-        cfgs = [("eq", "hash", 0), ("sp", "both", 0), ("speq", "hash", 1), ("none", "hash", 0), ("eq", "both", 2)]
-        for tpl in raw_structures(3):
-            for (dl, cm, om) in cfgs:
-                insts.append(p_raw(tpl, dl, cm, om))
-        for tpl in raw_structures(4):
-            if len(tpl) == 4: insts.append(p_raw(tpl, "eq", "hash", 0))
-        insts.append(p_raw("..", "eq", "hash", 0, follow=("FOLLOW_GETTERS",)))
-        insts.append(p_raw("..", "eq", "hash", 0, follow=("FOLLOW_WRITE",)))
+        cfgs = [("eq", "hash", 0), ("speq", "both", 0), ("eq", "both", 1), ("sp", "hash", 2)]
+        seed = int(__import__("os").environ.get("VERIF_SEED", "0") or 0)
+        for ti, tpl in enumerate(raw_structures(3)):
+            for ci, (dl, cm, om) in enumerate(cfgs):
+                if len(tpl) == 3 and ci != (ti + seed) % len(cfgs) and ci != 0: continue     # length 3: default config + one rotating config
+                insts.append(p_raw(tpl, dl, cm, om, timeout=400))
+        insts.append(p_raw("..", "eq", "hash", 0, follow=("FOLLOW_GETTERS",), timeout=400))
+        insts.append(p_raw("..", "eq", "hash", 0, follow=("FOLLOW_WRITE",), timeout=400))
     else:
         for tpl in raw_structures(6):
             for dl in DELIMS:
@@ -261,15 +261,21 @@ def conv_inst(name, L, opts="", defs=(), timeout=600, functions=None, keep=None)
     if keep is not None:
         L.concretize(keep)
     n = len(L.tpl)
-    cap = max(n + 3, 9)
-    d = {"STRCAP": cap, "VCAP": max(len(L.exps), len(L.secs) + 1, 2) + 1, "VFS_CONTENT": n + 1, "VFS_MAXNODES": 2}
+    # longest string the parser can build: a value with its continuation lines (<= longest 3 lines joined) or "(null)\n" + a line
+    linelens = sorted((len(x) for x in L.tpl.split("\n")), reverse=True)
+    cap = max(min(n + 3, sum(linelens[:3]) + 10), 9)
+    rt = "ROUNDTRIP" in defs
+    clen = len(L.canon()) if rt else 0
+    if rt: cap = max(cap, min(clen + 3, sum(linelens[:3]) + 14))
+    d = {"STRCAP": cap, "VCAP": max(len(L.exps), len(L.secs) + 1, 2) + 1, "VFS_CONTENT": max(n, clen) + 1, "VFS_MAXNODES": 4 if rt else 2, "FMTCAP": max(cap + 4, 24)}
     for x in defs: d[x] = None
     E = max(len(L.exps), 1); G = len(L.secs) + 1
-    uw = lib_unwinds(E, G, lines=L.line + 1) + [(r"p_conv\.c", r"r < NREL", len(L.rels) + 1), (r"p_conv\.c", r"p < FLEN", n + 1),
+    uw = lib_unwinds(E, G, lines=max(L.line, (L.canon().count(-10) if rt else 0)) + 1) + [(r"p_conv\.c", r"r < NREL", len(L.rels) + 1), (r"p_conv\.c", r"p < FLEN", n + 1),
           (r"p_conv\.c", r"i < NEXP", len(L.exps) + 1), (r"p_conv\.c", r"i < NSEC|s < NSEC", len(L.secs) + 2), (r"p_conv\.c", r"p < MAXP", 5),
-          (r"p_conv\.c", r"p < n;", 5), (r"builtin-library-strncpy", r"", 18), (r"p_conv\.c", r"\*set; set\+\+", 18), (r"p_conv\.c", r"\*d; d\+\+", 5), (r"libeconf_ext\.c", r"strsep", 5), (r"vfs_cbmc\.c", r"k < VFS_CONTENT", n + 3)]
+          (r"p_conv\.c", r"p < n;", 5), (r"builtin-library-strncpy", r"", 18), (r"p_conv\.c", r"p < CLEN", clen + 2), (r"p_conv\.c", r"i < NKSEC", len(L.secs) + 2),
+          (r"libeconf\.c", r"strsep\(&value_string", 6), (r"libeconf\.c", r"i < key_file->length", len(L.exps) + 1), (r"p_conv\.c", r"\*set; set\+\+", 18), (r"p_conv\.c", r"\*d; d\+\+", 5), (r"libeconf_ext\.c", r"strsep", 5), (r"vfs_cbmc\.c", r"k < VFS_CONTENT", max(n, clen) + 3), (r"p_conv\.c", r"j < l;|j < SEC|j < EXP", n + 2)]
     inst = Instance(name, "p_conv.c", d, unwind=cap + 1, unwindset=uw, timeout=timeout, mem_gb=8, leak_check=False,
-                    gen_files={"layout.h": L.header(opts=opts)},
+                    gen_files={"layout.h": L.header(opts=opts, roundtrip=rt)},
                     functions=functions or "read_file_with_callback, read_file, store, check_delim, setGroupList, econf_getGroups, econf_getKeys, econf_getStringValue, econf_getExtValue, econf_errLocation, econf_freeFile",
                     bounds="layout (K/k key, V/v/W value, q quoted, c comment, S/s section, b blank, d delimiter, h comment char, m/M continuation chars are symbolic over their class; the rest literal): %s ; delim=%r comment=%r ; lines: %s"
                            % (convgen.cstr(L.tpl), L.delim, L.comment, " ".join(L.desc)),
@@ -529,6 +535,80 @@ def c17(tier):
             "econf_getPath of a merged result ('') is asserted by the layered-read harness (C01/C12)"],
             "explanation": "provenance metadata (absolute path, line of the entry's end, preceding comment lines, trailing comment, blank-trimmed value lines) compared with the spans of the generated file"}
 
+def c07(tier):
+    seed = int(__import__("os").environ.get("VERIF_SEED", "0") or 0)
+    import random
+    rng = random.Random(700 + seed)
+    insts = []
+    defs = ("ROUNDTRIP",)
+    combos = [("=", "#"), (":", ";"), (" ", "#")] if tier == "quick" else [(d, c) for d in "=: " for c in "#;"]
+    for dl, cm in combos:
+        dn = {"=": "eq", ":": "col", " ": "sp"}[dl]; cn = {"#": "hash", ";": "semi"}[cm]
+        layouts = []
+        # fixed core: comments before + tail, quoted value, re-opened section, empty value, continuation line
+        L = convgen.Layout(dl, cm); f = convgen.seps_for(L)[0]
+        L.comment_line("", 2); L.entry("", 1, f, "quoted2", " Hc"); L.section("", 1, ""); L.entry("", 2, f, "plain1", "")
+        layouts.append(("core1", L))
+        L = convgen.Layout(dl, cm); f = convgen.seps_for(L)[0]
+        L.section("", 1, ""); L.entry("", 1, f, "plain3", ""); L.section("", 1, ""); L.entry("", 1, f, "empty", ""); L.section("", 1, "", same_as=0); L.entry("", 1, f, "plain1", "")
+        layouts.append(("core2", L))
+        L = convgen.Layout(dl, cm); f = convgen.seps_for(L)[0]
+        L.entry("", 1, f, "plain1", ""); L.cont(" ", 2, ""); L.entry("", 1, f, "quoted3", "")
+        layouts.append(("core3", L))
+        for r in range(5 if tier == "quick" else 24):
+            L = convgen.random_layout(rng, dl, cm, (1, 1, 2, 3, 3)[r % 5], meta=True, min_comment=1)
+            layouts.append(("rnd%d" % r, L))
+        for tg, L in layouts:
+            if not L.valid() or not L.exps or len(L.tpl) > (26 if tier == "quick" else 34) or L.err: continue
+            small_l = len(L.tpl) <= 9
+            insts.append(conv_inst("rt-%s-%s-%s%s" % (dn, cn, tg, "" if small_l else "-lit"), L, defs=defs, keep=None if small_l else ""))
+    if tier == "quick":
+        hist = ["A.x -.y", "-.x A.y -.z", "A.x B.y A.z", "-.x -.x", "A.x A.x B.x", "B.x A.y -.x B.z"]
+    else:
+        import itertools
+        hist = []
+        for n in (1, 2, 3, 4):
+            for secs in itertools.product("-AB", repeat=n):
+                if "B" in secs and ("A" not in secs or secs.index("B") < secs.index("A")): continue
+                for keys in itertools.product("xy", repeat=n):
+                    if n == 4 and rng.random() < 0.7: continue
+                    hist.append(" ".join("%s.%s" % (a, b) for a, b in zip(secs, keys)))
+    for h in hist:
+        for dl, cm in (combos[:2] if tier == "quick" else combos):
+            insts.append(wset_inst(h, dl, cm))
+    return {"instances": insts, "assumptions": COMMON_ASSUME + ["parsed objects: layouts concrete per instance with symbolic field characters (as C02); the written bytes are compared with the canonical serialisation of DESIGN.md 5.4 and the file is read back with the same delimiter and comment character",
+            "setter-built objects: the sequence of (section, key) of the setter calls is concrete per instance (all sequences up to the length bound in thorough), values symbolic 'plain' text",
+            "an empty value may come back as 'no value' (NULL) - both denote the empty value; comment lines with empty text are not generated (the writer drops an all-empty comment; not claimed)",
+            "the writer's output positions depend on string lengths and a symbolic character may be NUL for the symbolic execution, so objects that pass through econf_writeFile carry concrete strings except in the smallest layouts (<= 9 bytes); the symbolic quantification over field characters is on the parsing side (canonical files are conventional files, C02)"],
+            "explanation": "write/read round trip decided on parsed conventional files and on setter histories"}
+
+def wset_inst(hist, dl, cm):
+    ops = hist.split()
+    n = len(ops)
+    # canonical text the writer must produce: entries in order of first set, header on section change
+    ents = []
+    for o in ops:
+        if o not in ents: ents.append(o)
+    ents = [o for o in ents if o.startswith("-")] + [o for o in ents if not o.startswith("-")]   # group-less entries are written first
+    text = ""; prev = None
+    for i, o in enumerate(ents):
+        g, k = o.split(".")
+        if i == 0 or g != prev:
+            if i: text += "\n"
+            if g != "-": text += "[%s]\n" % g
+        prev = g
+        text += "%s%s??\n" % (k, dl)
+    ends = [i + 1 for i, c in enumerate(text) if c == "\n"]
+    d = {"STRCAP": 16, "VCAP": max(n + 2, 5), "VFS_CONTENT": 12 * n + 8, "VFS_MAXNODES": 3, "FMTCAP": 24, "HIST": '"%s"' % hist.replace(" ", ","), "NOPS": n, "DCH": "'%s'" % dl, "CCH": "'%s'" % cm,
+         "WS_ENDS": "{%s}" % ",".join(str(e) for e in ends), "WS_NENDS": len(ends), "WS_LEN": len(text), "CONCRETE_VALUES": None}
+    uw = lib_unwinds(n + 1, 4, lines=3 * n + 3, alloc=9) + [(r"w_set\.c", r"i < NOPS|j < NOPS|g < 3", n + 2), (r"vfs_cbmc\.c", r"k < VFS_CONTENT", 12 * n + 10), (r"libeconf\.c", r"i < key_file->length", n + 1)]
+    inst = Instance("ws-%s-%s%s" % (hist.replace(" ", "_").replace(".", ""), {"=": "eq", ":": "col", " ": "sp"}[dl], {"#": "h", ";": "s"}[cm]), "w_set.c", d, unwind=17, unwindset=uw, timeout=400, mem_gb=8, leak_check=False,
+                    functions="econf_newKeyFile, econf_setStringValue, econf_writeFile, econf_readFile, econf_getGroups, econf_getKeys, econf_getStringValue",
+                    bounds="setter history %s (section.key per call, '-' group-less; repeated pairs overwrite), values: 2 concrete characters each (the writer's output layout depends on string lengths, which a symbolic character makes symbolic); delimiter %r comment %r" % (hist, dl, cm),
+                    expect_reach=["end"])
+    inst.functional_only = True
+    return inst
+
 def c13(tier):
     seed = int(__import__("os").environ.get("VERIF_SEED", "0") or 0)
     insts = conv_family(tier, seed, err=True, sysl=False, per_class=3 if tier == "quick" else 14, tag="err", defs=(), delims=["eq", "coleq", "sp", "speq"] if tier == "quick" else None,
@@ -548,7 +628,7 @@ def c20(tier):
             "uninitialised reads: fresh heap memory has arbitrary contents in CBMC, so a read of a never-written field makes the harness assertions on it fail"],
             "explanation": "every early-return path of the layered read with a failure injected at a chosen consulted file, plus API histories, under CBMC's leak / double-free / use-after-free checks"}
 
-REGISTRY = {"C05": c05, "C17": c17, "C06": c06, "C12": c12, "C13": c13, "C16": c16, "C20": c20, "C01": c01, "C02": c02, "C10": c10, "C11": c11, "C03": c03, "C04": c04, "C08": c08, "C09": c09}
+REGISTRY = {"C07": c07, "C05": c05, "C17": c17, "C06": c06, "C12": c12, "C13": c13, "C16": c16, "C20": c20, "C01": c01, "C02": c02, "C10": c10, "C11": c11, "C03": c03, "C04": c04, "C08": c08, "C09": c09}
 
 def get(prop, tier):
     if prop not in REGISTRY:
